@@ -7,6 +7,7 @@ It should not be considered part of the public API.
 from __future__ import annotations
 
 import logging
+import warnings
 from argparse import (
     SUPPRESS,
     Action,
@@ -430,7 +431,12 @@ def _get_arg_type_wrapper(cls: Type[Any]) -> Callable[[Any], Any]:
         if arg is SUPPRESS:
             return arg
         try:
-            return cls(arg)
+            # Converting what a client sent may issue warnings (for example a
+            # `SyntaxWarning` for an invalid escape sequence in a literal);
+            # those must not be printed on the server's `stderr`.
+            with warnings.catch_warnings():
+                warnings.simplefilter("ignore")
+                return cls(arg)
         except (ArgumentTypeError, TypeError, ValueError):
             raise  # handled properly by the parser and propagated to the client
         except Exception as e:
